@@ -609,7 +609,9 @@ class Gen(object):
             self.features.add("array-of-bits")
             return f, n * nb
         ebytes = r.choice([1, 1, 1, 2, 4])
-        kind = r.choice(["UInt", "UInt", "Int"])
+        kind = r.choice(["UInt", "UInt", "Int", "Bcd"])
+        if kind == "Bcd":
+            self.features.add("array-of-bcd")
         if k < 0.6 or not env.ints:
             n = r.choice([1, 2, 3, 4, 8])
             dims = [("n", n)]
